@@ -366,6 +366,16 @@ func (ca *CertificateAuthority) upload(ctx context.Context, manifest *cpb.GCECer
 		output.Warningf(ctx, "key version exists in manifest %v -> %v", keyVersionName, entry.GetObjectPath())
 	} else {
 		name = ca.certObjectName(cert)
+		// Object names derive from the subject's common name and serial. An object that is the
+		// recorded certificate of another key version cannot also become this one's, whatever
+		// --overwrite says: one of the two entries would serve the wrong certificate.
+		for _, other := range manifest.Entries {
+			if other.ObjectPath == name {
+				return nil, status.Errorf(codes.AlreadyExists,
+					"object %q holds the certificate of key version %q, cannot record it for key version %q",
+					name, other.KeyVersionName, keyVersionName)
+			}
+		}
 	}
 	// The non-root certificates are expected to be in DER format. See the CertificateAuthority
 	// interface.
